@@ -6,6 +6,9 @@ use crate::macsuites::*;
 use crate::util::*;
 
 pub fn eval(op: &str) -> String {
+    if let Some(r) = crate::adevgen::eval_dev_any(op) {
+        return r;
+    }
     let outs = run_history(op);
     format!("{} ## oracle={}", outs.join(" ; "), oracle_c09_c10(op, &outs, true, false))
 }
@@ -36,6 +39,41 @@ pub fn run(tier: &str, seed: u64, dir: &str) {
             let op = h.done();
             sink.case(&op, &eval(&op), "forced-draws", true);
         }
+        // a plan whose only enabled channel is slot k, for every k (dynamic plans), and a plan whose
+        // only enabled channel is c for a spread of c (fixed plans): the selection must find it
+        if !is_fixed(region) {
+            let (lo, _) = band(region);
+            for k in crate::oracle::num_default_channels(region) as u8..16 {
+                let mut h = Hist::new("C09", region, 20, 0, 1000 + k as u64, &[], None);
+                h.abp().send(1, false, &[1]);
+                h.rx_auth("rx1", 0, 1, false, &new_channel_req(k, lo + 100_000 * (k as u32 + 1), 0x50), None, &[]).snap();
+                h.send(1, false, &[2]);
+                h.rx_auth("rx1", 0, 1, false, &link_adr_req(15, 15, 1u16 << k, 0, 1), None, &[]).snap();
+                for _ in 0..3 {
+                    h.send(1, false, &[3]).timeout().snap();
+                }
+                let op = h.done();
+                sink.case(&op, &eval(&op), "single-enabled-slot", true);
+            }
+        } else {
+            for c in (0..64u32).step_by(if thorough { 1 } else { 7 }) {
+                let mut h = Hist::new("C09", region, 20, 0, 2000 + c as u64, &[], None);
+                h.abp().send(1, false, &[1]);
+                // ChMaskCntl 7: all 125 kHz channels off, then one bank with a single bit
+                let mut cmds = link_adr_req(15, 15, 0, 7, 1);
+                // (the fixed plans require at least two 125 kHz channels)
+                let two = (1u16 << (c % 16)) | (1u16 << ((c + 1) % 16));
+                cmds.extend_from_slice(&link_adr_req(15, 15, two, (c / 16) as u8, 1));
+                h.rx_auth("rx1", 0, 1, false, &cmds, None, &[]).snap();
+                for _ in 0..3 {
+                    h.send(1, false, &[3]).timeout().snap();
+                }
+                let op = h.done();
+                sink.case(&op, &eval(&op), "two-enabled-channels", true);
+            }
+        }
     }
-    sink.finish(dir, "MAC histories with OTAA joins (CFLists), LinkADRReq / NewChannelReq / DlChannelReq downlinks, ADR back-off, application data-rate changes, join bias, antenna gains {0,2,-3,6} and board powers {2,14,20,30}; a state snapshot follows every step so that each TxConfig is judged against the plan in force; forced RNG draws enumerate channel choices of the initial state. Non-trivial = every case.", false, serde_json::json!({}));
+    // device level: both front-ends with the scripted radio (see adevgen::add_dev_classes)
+    crate::adevgen::add_dev_classes("C09", &mut rng, &mut sink, thorough, eval);
+    sink.finish(dir, "MAC histories with OTAA joins (CFLists), LinkADRReq / NewChannelReq / DlChannelReq downlinks, ADR back-off, application data-rate changes, join bias, antenna gains {0,2,-3,6} and board powers {2,14,20,30}; a state snapshot follows every step so that each TxConfig is judged against the plan in force; forced RNG draws enumerate channel choices of the initial state; plans reduced to a single enabled slot at every index. Non-trivial = every case.", false, serde_json::json!({}));
 }
